@@ -36,7 +36,7 @@ class Elimination(ModelFeature):
 
     def __eq__(self, other):
         if isinstance(other, Elimination):
-            return set(self.modes) == set(other.modes)
+            return set(self.eval.modes) == set(other.eval.modes)
         else:
             return False
 
